@@ -73,7 +73,9 @@ impl TraceSlider {
 
     pub(crate) fn set_position_and_len(&mut self, position: TracePos, subtrace_len: TraceLen) -> KeeperResult<()> {
         // it's possible to set empty subtrace_len and inconsistent position
-        if subtrace_len != 0 && position + subtrace_len > self.trace.trace_states_count().into() {
+        // position and subtrace_len come from (possibly malicious) data, so their sum could overflow TracePos
+        let subtrace_end = usize::from(position) + subtrace_len as usize;
+        if subtrace_len != 0 && subtrace_end > self.trace.trace_states_count() as usize {
             return Err(SetSubtraceLenAndPosFailed {
                 requested_pos: position,
                 requested_subtrace_len: subtrace_len,
@@ -89,8 +91,9 @@ impl TraceSlider {
     }
 
     pub(crate) fn set_subtrace_len(&mut self, subtrace_len: TraceLen) -> KeeperResult<()> {
-        let trace_remainder: TraceLen = (TracePos::from(self.trace_len()) - self.position).into();
-        if trace_remainder < subtrace_len {
+        // position could be out of the trace after set_position_and_len with an empty subtrace
+        let trace_remainder = (self.trace_len() as usize).saturating_sub(self.position.into());
+        if trace_remainder < subtrace_len as usize {
             return Err(SetSubtraceLenFailed {
                 requested_subtrace_len: subtrace_len,
                 trace_position: self.position,
